@@ -2730,6 +2730,14 @@ impl<'a> Socket<'a> {
                     if win_limit == 0 && self.timer.should_zero_window_probe(cx.now()) {
                         win_limit = 1;
                         is_zero_window_probe = true;
+                        // If everything in the buffer has already been sent once, there is
+                        // no new octet to probe with, and an empty segment elicits no reply
+                        // once the window has reopened: probe with the first unacknowledged
+                        // octet instead (it may well have been dropped at the window edge).
+                        if self.flight_size() >= self.tx_buffer.len() {
+                            self.remote_last_seq = self.local_seq_no;
+                            repr.seq_number = self.local_seq_no;
+                        }
                     }
 
                     // Maximum size we're allowed to send. This can be limited by 4 factors:
